@@ -1,0 +1,27 @@
+//! Verification hooks, compiled only with `--cfg zipora_verif`.
+//!
+//! `yield_point(site)` is called at the atomic load / next-pointer read / compare-exchange
+//! boundaries of the lock-free structures (memory pools, version manager).  It does nothing
+//! unless an external harness installed a callback, in which case the harness can park the
+//! calling thread and run another one: a cooperative scheduler that enumerates interleavings
+//! of the real code.  No call site lies inside a critical section.
+
+use std::sync::atomic::{AtomicUsize, Ordering};
+
+static YIELD_CB: AtomicUsize = AtomicUsize::new(0);
+
+/// Install (or with `None` remove) the process-wide yield callback.
+pub fn set_yield_callback(cb: Option<fn(u32)>) {
+    YIELD_CB.store(cb.map(|f| f as usize).unwrap_or(0), Ordering::SeqCst);
+}
+
+/// Schedule point; `site` identifies the call site.
+#[inline]
+pub fn yield_point(site: u32) {
+    let p = YIELD_CB.load(Ordering::Acquire);
+    if p != 0 {
+        // SAFETY: only `set_yield_callback` stores into YIELD_CB, and it stores a `fn(u32)`.
+        let f: fn(u32) = unsafe { std::mem::transmute::<usize, fn(u32)>(p) };
+        f(site);
+    }
+}
